@@ -67,6 +67,8 @@ class Ctx:
         env = dict(os.environ, **GOENV)
         shutil.copyfile(os.path.join(REPO, "go.sum"), os.path.join(HARNESS, "go.sum"))
         cmd = ["go", "build", "-tags", "verif", "-o", out]
+        if os.environ.get("VERIF_COVER"):       # statement coverage of the library under the corpus (tools/coverage.sh)
+            cmd += ["-cover", "-coverpkg=github.com/contiv/libOpenflow/..."]
         if race:
             cmd.append("-race")
         cmd.append("./cmd/harness")
@@ -83,6 +85,8 @@ class Ctx:
         e = dict(os.environ)
         if env:
             e.update(env)
+        if os.environ.get("VERIF_COVER"):
+            e["GOCOVERDIR"] = os.environ["VERIF_COVER"]
         p = subprocess.run([exe] + args, capture_output=True, text=True, timeout=timeout, env=e)
         if check and p.returncode != 0:
             raise Infra("harness %s failed (%d): %s" % (args[:1], p.returncode, p.stderr[-4000:]))
